@@ -172,6 +172,36 @@ def _points_for(hyps, n, seed, with_m, m_sign):
                     continue
                 if len(out) >= n:
                     return out
+    if out:
+        return out
+    # measure-zero surfaces inside the domain (e.g. d2 == 0): pin t, v, K to exact values with a rational sqrt and let the solver find x (, m)
+    from . import smt
+    for t0 in (Fraction(1), Fraction(1, 4), Fraction(4)):
+        for v0 in (Fraction(1, 2), Fraction(1, 5), Fraction(1)):
+            for K0 in (Fraction(1), Fraction(13, 10)):
+                pin = [tm.eq(t, tm.const(t0)), tm.eq(v, tm.const(v0)), tm.eq(K, tm.const(K0))]
+                try:
+                    r = smt.check_sat(list(hyps) + pin, timeout_ms=5000, want_model=True, use_cvc5=False)
+                except Exception:
+                    continue
+                if r.status != 'sat' or not r.model:
+                    continue
+                p = {'t': t0, 'v': v0, 'K': K0}
+                ok = True
+                for nm_ in (('x', 'm') if with_m else ('x',)):
+                    val = r.model.get(nm_)
+                    if not isinstance(val, Fraction) and not isinstance(val, int):
+                        ok = False
+                        break
+                    p[nm_] = Fraction(val)
+                p.update(pins)
+                try:
+                    if ok and all(evalc.evaluate(h, p) for h in hyps):
+                        out.append(p)
+                except (evalc.Undefined, KeyError):
+                    pass
+                if len(out) >= n:
+                    return out
     return out
 
 
